@@ -44,6 +44,7 @@ def profile(finding_lane=False):
     p.funcs = set(SQLITE_FUNCS)
     p.columns = dict(scalar.SCHEMA)
     p.types = {"int", "float", "str", "bool", "datetime"}
+    p.bare_bool_literal = True
     p.null_left = True
     # clean lane: no LIKE wildcards in pattern literals, no non-literal patterns (known
     # findings); the finding lane generates them on purpose
